@@ -329,17 +329,16 @@ func (a Amount) String() string {
 		return "NA"
 	}
 	p := intPow(10, a.exp)
-	v := a.value
+	v1 := a.value / p
+	v2 := a.value % p
 	s := ""
-	if v < 0 {
+	if a.value < 0 {
+		// change the sign of the two parts and not of the value itself:
+		// the most negative value has no positive counterpart
 		s = "-"
-		v = -v
+		v1 = -v1
+		v2 = -v2
 	}
-	v1 := v / p
-	v2 := v - (v1 * p)
-	//if v2 < 0 {
-	//	v2 = -v2
-	//}
 	return fmt.Sprintf("%s%d.%0*d", s, v1, a.exp, v2)
 }
 
